@@ -121,12 +121,11 @@ structure Inv (id1 id2 A : Bytes) (t : Target) (n r : Bytes) (d : Nat) (X : Int)
   hash : getHash t.hash [id1, id2] = some (n, r)
   holds : Holds [id1, id2] t n d X
   carrier : Carrier A t n d X
-  own : RunidOwn t n
 
 /-- requests that cannot hurt the position held under key `n` in database `d` carried by id `A` -/
-def SafeReq (id1 id2 A n : Bytes) (d : Nat) : Req → Prop
+def SafeReq (id1 id2 A n r : Bytes) (d : Nat) : Req → Prop
   | .hdelCp db name ks => name ≠ n ∨ ∃ ρ, ks = fourKeys ρ ∧ (db ≠ d ∨ ρ ≠ A)
-  | .hdelHash rid => rid ≠ id1 ∧ rid ≠ id2
+  | .hdelHash rid => rid ≠ id1 ∧ (rid ≠ id2 ∨ r = id1)
   | _ => False
 
 theorem offSel_iff (ids : List Bytes) (e : Entry) :
@@ -284,9 +283,8 @@ theorem Holds.congr {ids : List Bytes} {t t' : Target} {n : Bytes} {d : Nat} {X 
 theorem Inv.congr {id1 id2 A n r : Bytes} {d : Nat} {X : Int} {t t' : Target}
     (hi : Inv id1 id2 A t n r d X) (hh : getHash t'.hash [id1, id2] = getHash t.hash [id1, id2])
     (hc : ∀ db, t'.cps db n = t.cps db n) : Inv id1 id2 A t' n r d X := by
-  refine ⟨hh ▸ hi.hash, hi.holds.congr hc, ?_, ?_⟩
-  · unfold Carrier; rw [hc]; exact hi.carrier
-  · intro db e he; rw [hc] at he; exact hi.own db e he
+  refine ⟨hh ▸ hi.hash, hi.holds.congr hc, ?_⟩
+  unfold Carrier; rw [hc]; exact hi.carrier
 
 theorem applyReq_hdelCp_cps (t : Target) (db : Nat) (name : Bytes) (ks : List FKey) (db' : Nat)
     (n' : Bytes) : (applyReq t (.hdelCp db name ks)).cps db' n'
@@ -296,21 +294,54 @@ theorem applyReq_hsetCp_cps (t : Target) (db : Nat) (name : Bytes) (es : List En
     (n' : Bytes) : (applyReq t (.hsetCp db name es)).cps db' n'
       = if db' = db ∧ n' = name then hsetMany (t.cps db name) es else t.cps db' n' := rfl
 
-theorem inv_applyReq {id1 id2 A n r : Bytes} {d : Nat} {X : Int} (hne : id1 ≠ id2)
+/-- a name resolved through the first id does not depend on the second id's entry -/
+theorem getHash_first {h : List (Bytes × Bytes)} {id1 id2 n : Bytes} (hne : id1 ≠ id2) (h1 : id1 ≠ [])
+    (hg : getHash h [id1, id2] = some (n, id1)) : hlookup h id1 = some n ∧ n ≠ [] := by
+  simp only [getHash] at hg
+  cases hl : hlookup h id1 with
+  | none =>
+    simp only [hl] at hg
+    cases hl2 : hlookup h id2 with
+    | none => simp only [hl2, Option.some.injEq, Prod.mk.injEq] at hg; exact absurd hg.2.symm h1
+    | some m => simp only [hl2, Option.some.injEq, Prod.mk.injEq] at hg; exact absurd hg.2.symm hne
+  | some m =>
+    simp only [hl] at hg
+    by_cases hm : m ≠ []
+    · rw [if_pos hm] at hg
+      simp only [Option.some.injEq, Prod.mk.injEq] at hg
+      exact ⟨by rw [hg.1], hg.1 ▸ hm⟩
+    · rw [if_neg hm] at hg
+      cases hl2 : hlookup h id2 with
+      | none => simp only [hl2, Option.some.injEq, Prod.mk.injEq] at hg; exact absurd hg.2.symm h1
+      | some m' => simp only [hl2, Option.some.injEq, Prod.mk.injEq] at hg; exact absurd hg.2.symm hne
+
+theorem getHash_of_first {h : List (Bytes × Bytes)} {id1 id2 n : Bytes}
+    (hl : hlookup h id1 = some n) (hn : n ≠ []) : getHash h [id1, id2] = some (n, id1) := by
+  simp only [getHash, hl]; rw [if_pos hn]
+
+theorem inv_applyReq {id1 id2 A n r : Bytes} {d : Nat} {X : Int} (hne : id1 ≠ id2) (h1 : id1 ≠ [])
     (hA : A = id1 ∨ A = id2) {t : Target} (hi : Inv id1 id2 A t n r d X) (req : Req)
-    (hs : SafeReq id1 id2 A n d req) : Inv id1 id2 A (applyReq t req) n r d X := by
+    (hs : SafeReq id1 id2 A n r d req) : Inv id1 id2 A (applyReq t req) n r d X := by
   cases req with
   | hsetCp db name es => exact absurd hs (by simp [SafeReq])
   | delKeys db names => exact absurd hs (by simp [SafeReq])
   | hsetHash rid name => exact absurd hs (by simp [SafeReq])
   | hsetnxHash rid name => exact absurd hs (by simp [SafeReq])
   | hdelHash rid =>
-    have hs' : rid ≠ id1 ∧ rid ≠ id2 := hs
-    apply hi.congr
-    · apply getHash_congr
-      · exact hlookup_hashDel_ne _ _ _ (Ne.symm hs'.1)
-      · exact hlookup_hashDel_ne _ _ _ (Ne.symm hs'.2)
-    · intro db; rfl
+    have hs' : rid ≠ id1 ∧ (rid ≠ id2 ∨ r = id1) := hs
+    rcases hs'.2 with h2 | h2
+    · apply hi.congr
+      · apply getHash_congr
+        · exact hlookup_hashDel_ne _ _ _ (Ne.symm hs'.1)
+        · exact hlookup_hashDel_ne _ _ _ (Ne.symm h2)
+      · intro db; rfl
+    · subst h2
+      obtain ⟨hl, hn⟩ := getHash_first hne h1 hi.hash
+      apply hi.congr
+      · show getHash (hashDel t.hash rid) [r, id2] = getHash t.hash [r, id2]
+        rw [hi.hash]
+        exact getHash_of_first ((hlookup_hashDel_ne _ _ _ (Ne.symm hs'.1)).trans hl) hn
+      · intro db; rfl
   | hdelCp db name ks =>
     have hs' : name ≠ n ∨ ∃ ρ, ks = fourKeys ρ ∧ (db ≠ d ∨ ρ ≠ A) := hs
     by_cases hname : name = n
@@ -323,7 +354,7 @@ theorem inv_applyReq {id1 id2 A n r : Bytes} {d : Nat} {X : Int} (hne : id1 ≠ 
         have hnew : (applyReq t (.hdelCp db name (fourKeys ρ))).cps db name
             = hdelMany (t.cps db name) (fourKeys ρ) := by
           rw [applyReq_hdelCp_cps]; simp
-        refine ⟨hi.hash, ?_, ?_, ?_⟩
+        refine ⟨hi.hash, ?_, ?_⟩
         · apply hi.holds.update _ db hother
           · rw [hnew, hdelMany_fourKeys]; exact (hi.holds.parses db).filter _
           · intro hdb
@@ -352,28 +383,51 @@ theorem inv_applyReq {id1 id2 A n r : Bytes} {d : Nat} {X : Int} (hne : id1 ≠ 
             rw [hnew, offOf_one_hdel_other A ρ hρ, ridOf_one_hdel_other A ρ hρ]
             exact hi.carrier
           · rw [hother d hdb]; exact hi.carrier
-        · intro db' e he
-          by_cases hdb : db' = db
-          · subst hdb
-            rw [hnew, hdelMany_fourKeys] at he
-            exact hi.own db' e (List.mem_filter.mp he).1
-          · rw [hother db' hdb] at he; exact hi.own db' e he
     · apply hi.congr (t' := applyReq t (.hdelCp db name ks)) rfl
       intro db'
       rw [applyReq_hdelCp_cps]
       have : ¬ (db' = db ∧ n = name) := fun h => hname h.2.symm
       simp [this]
 
-theorem inv_applyAll {id1 id2 A n r : Bytes} {d : Nat} {X : Int} (hne : id1 ≠ id2)
+theorem inv_applyAll {id1 id2 A n r : Bytes} {d : Nat} {X : Int} (hne : id1 ≠ id2) (h1 : id1 ≠ [])
     (hA : A = id1 ∨ A = id2) (rs : List Req) :
-    ∀ {t : Target}, Inv id1 id2 A t n r d X → (∀ q ∈ rs, SafeReq id1 id2 A n d q) →
+    ∀ {t : Target}, Inv id1 id2 A t n r d X → (∀ q ∈ rs, SafeReq id1 id2 A n r d q) →
       Inv id1 id2 A (applyAll t rs) n r d X := by
   induction rs with
   | nil => intro t hi _; exact hi
   | cons q rs ih =>
     intro t hi hs
     simp only [applyAll, List.foldl_cons]
-    exact ih (inv_applyReq hne hA hi q (hs q (List.mem_cons_self ..)))
+    exact ih (inv_applyReq hne h1 hA hi q (hs q (List.mem_cons_self ..)))
+      (fun q' hq' => hs q' (List.mem_cons_of_mem _ hq'))
+
+/-- deletions keep `_runid` fields owning their id -/
+theorem own_applyReq {id1 id2 A n r : Bytes} {d : Nat} {t : Target} (ho : RunidOwn t n) (req : Req)
+    (hs : SafeReq id1 id2 A n r d req) : RunidOwn (applyReq t req) n := by
+  cases req with
+  | hsetCp db name es => exact absurd hs (by simp [SafeReq])
+  | delKeys db names => exact absurd hs (by simp [SafeReq])
+  | hsetHash rid name => exact absurd hs (by simp [SafeReq])
+  | hsetnxHash rid name => exact absurd hs (by simp [SafeReq])
+  | hdelHash rid => exact ho
+  | hdelCp db name ks =>
+    intro db' e he
+    rw [applyReq_hdelCp_cps] at he
+    split at he
+    · rename_i hc
+      rw [← hc.2, ← hc.1] at he
+      exact ho db' e (List.mem_filter.mp he).1
+    · exact ho db' e he
+
+theorem own_applyAll {id1 id2 A n r : Bytes} {d : Nat} (rs : List Req) :
+    ∀ {t : Target}, RunidOwn t n → (∀ q ∈ rs, SafeReq id1 id2 A n r d q) →
+      RunidOwn (applyAll t rs) n := by
+  induction rs with
+  | nil => intro t ho _; exact ho
+  | cons q rs ih =>
+    intro t ho hs
+    simp only [applyAll, List.foldl_cons]
+    exact ih (own_applyReq ho q (hs q (List.mem_cons_self ..)))
       (fun q' hq' => hs q' (List.mem_cons_of_mem _ hq'))
 
 theorem applyAll_append (t : Target) (a b : List Req) :
@@ -458,6 +512,32 @@ private structure SInv (d : Nat) (X : Int) (s : StaleScan) : Prop where
   eq : s.newest = X → s.newestDb = d
   found : ∀ p ∈ s.found, p.1 = d → s.newest = X
 
+/-- what one iteration of the first loop does to the scan record -/
+def scanNext (s : StaleScan) (db : Nat) (cpi : CpInfo) : StaleScan :=
+  let s1 : StaleScan := if cpi.offset > s.newest then { s with newest := cpi.offset, newestDb := db } else s
+  if cpi.offset > 0 then { s1 with found := s1.found ++ [(db, cpi)] } else s1
+
+theorem staleScanStep_some (t : Target) (name rid : Bytes) (s : StaleScan) (db : Nat) (cpi : CpInfo)
+    (hf : fetch [rid] (t.cps db name) = some cpi) :
+    staleScanStep t name rid (some s) db = some (scanNext s db cpi) := by
+  simp only [staleScanStep, hf, scanNext]
+
+theorem scanNext_fields (s : StaleScan) (db : Nat) (cpi : CpInfo) :
+    ((scanNext s db cpi).newest = if cpi.offset > s.newest then cpi.offset else s.newest) ∧
+    ((scanNext s db cpi).newestDb = if cpi.offset > s.newest then db else s.newestDb) ∧
+    (∀ p ∈ (scanNext s db cpi).found, p ∈ s.found ∨ p = (db, cpi)) := by
+  unfold scanNext
+  by_cases h1 : cpi.offset > s.newest <;> by_cases h2 : cpi.offset > 0 <;>
+    simp only [h1, h2, if_true, if_false] <;> refine ⟨trivial, trivial, ?_⟩ <;> intro p hp
+  · rcases List.mem_append.mp hp with hp | hp
+    · exact Or.inl hp
+    · exact Or.inr (by simpa using hp)
+  · exact Or.inl hp
+  · rcases List.mem_append.mp hp with hp | hp
+    · exact Or.inl hp
+    · exact Or.inr (by simpa using hp)
+  · exact Or.inl hp
+
 private theorem staleScan_newest_aux {id1 id2 A n r : Bytes} {d : Nat} {X : Int}
     (hA : A = id1 ∨ A = id2) {t : Target} (hi : Inv id1 id2 A t n r d X) (order : List Nat) :
     ∀ (s0 s : StaleScan), SInv d X s0 →
@@ -469,48 +549,31 @@ private theorem staleScan_newest_aux {id1 id2 A n r : Bytes} {d : Nat} {X : Int}
     simp only [List.foldl_cons] at h
     have hsub := matchId_one_sub id1 id2 A hA
     obtain ⟨cpi, hf, hoff, _⟩ := fetch_spec [A] (t.cps db n) ((hi.holds.parses db).sub hsub)
-    simp only [staleScanStep, hf] at h
+    rw [staleScanStep_some t n A s0 db cpi hf] at h
     refine ih _ s ?_ h
+    obtain ⟨e1, e2, e3⟩ := scanNext_fields s0 db cpi
+    have hle := h0.le
     by_cases hdb : db = d
     · subst hdb
       have hX : cpi.offset = X := by rw [hoff]; exact hi.carrier.1
-      constructor
-      · split <;> split <;> simp_all <;> omega
-      · intro _
-        split
-        · split <;> simp_all
-        · split
-          · rename_i h1 h2; simp only at *
-            have := h0.le; have := h0.eq (by omega); simp_all
-          · rename_i h1 h2
-            have := h0.le; exact h0.eq (by omega)
-      · intro p hp _
-        split
-        · split <;> simp_all
-        · split
-          · rename_i h1 h2; have := h0.le; simp only; omega
-          · rename_i h1 h2; have := h0.le; omega
+      refine ⟨?_, ?_, ?_⟩
+      · rw [e1]; split <;> omega
+      · intro _; rw [e2]; split
+        · rfl
+        · exact h0.eq (by omega)
+      · intro p _ _; rw [e1]; split <;> omega
     · have hlt : cpi.offset < X := by
         rw [hoff]; exact offOf_lt_of_below ((hi.holds.dom db hdb).sub hsub) hi.holds.nonneg
-      have hnf : ∀ p ∈ s0.found, p.1 = d → s0.newest = X := h0.found
-      constructor
-      · split <;> split <;> simp only <;> first | omega | exact h0.le
-      · split
-        · split <;> simp only <;> intro h' <;> omega
-        · split <;> simp only <;> exact h0.eq
+      refine ⟨?_, ?_, ?_⟩
+      · rw [e1]; split <;> omega
+      · rw [e1, e2]; split
+        · intro h'; omega
+        · exact h0.eq
       · intro p hp hpd
-        split at hp
-        · rcases List.mem_append.mp hp with hp | hp
-          · split at hp
-            · rename_i h2
-              have := hnf p hp hpd; simp only at h2; omega
-            · split <;> simp only <;> first | exact hnf p hp hpd | (have := hnf p hp hpd; omega)
-          · have : p = (db, cpi) := by simpa using hp
-            subst this; exact absurd hpd hdb
-        · split at hp
-          · rename_i h2
-            have := hnf p hp hpd; simp only at h2; omega
-          · split <;> simp only <;> first | exact hnf p hp hpd | (have := hnf p hp hpd; omega)
+        rcases e3 p hp with hp | hp
+        · have := h0.found p hp hpd
+          rw [e1]; split <;> omega
+        · subst hp; exact absurd hpd hdb
 
 theorem staleScan_newest {id1 id2 A n r : Bytes} {d : Nat} {X : Int}
     (hA : A = id1 ∨ A = id2) {t : Target} (hi : Inv id1 id2 A t n r d X) (order : List Nat)
@@ -521,5 +584,191 @@ theorem staleScan_newest {id1 id2 A n r : Bytes} {d : Nat} {X : Int}
   have := staleScan_newest_aux hA hi order {} s h0 h
   intro p hp hpd
   exact this.eq (this.found p hp hpd)
+
+/-- the requests of one `DelStaleCheckpoint` call are safe for the held position -/
+theorem delStale_safe {id1 id2 A n r : Bytes} {d : Nat} {X : Int}
+    (hA : A = id1 ∨ A = id2) (hq : A ≠ qmark) {t : Target} (hi : Inv id1 id2 A t n r d X)
+    (hown : RunidOwn t n)
+    (cpn rid : Bytes) (before : Int) (exist : Bool) (order : List Nat)
+    (hex : rid = A → exist = true) :
+    ∀ q ∈ (delStale t cpn rid before exist order).2.2, SafeReq id1 id2 A n r d q := by
+  intro q hq'
+  unfold delStale at hq'
+  cases hs : staleScan t cpn rid order with
+  | none => simp [hs] at hq'
+  | some s =>
+    simp only [hs] at hq'
+    obtain ⟨p, hp, rfl⟩ := List.mem_map.mp hq'
+    have hpf : p ∈ s.found := (List.mem_filter.mp hp).1
+    have hpv := (List.mem_filter.mp hp).2
+    show cpn ≠ n ∨ ∃ ρ, fourKeys p.2.runId = fourKeys ρ ∧ (p.1 ≠ d ∨ ρ ≠ A)
+    by_cases hname : cpn = n
+    · subst hname
+      right
+      refine ⟨p.2.runId, rfl, ?_⟩
+      by_cases hrid : rid = A
+      · subst hrid
+        left
+        intro hpd
+        have hnew := staleScan_newest hA hi order s hs p hpf hpd
+        have hE := hex rfl
+        simp only [hE, decide_eq_true_eq] at hpv
+        apply hpv; left
+        exact ⟨hpd.trans hnew.symm, trivial⟩
+      · right
+        have hfetch := staleScan_found t cpn rid order {} s (by simp) hs p hpf
+        -- the run id read with [rid] is rid or "?"
+        have hown : ∀ e ∈ t.cps p.1 cpn, e.kind = .runid → e.val = e.rid := hown p.1
+        have h2 : ∀ (fs : Cp) (c : CpInfo), (∀ e ∈ fs, e.kind = .runid → e.val = e.rid) →
+            ∀ c0 : CpInfo, (c0.runId = rid ∨ c0.runId = qmark) →
+            fs.foldl (fetchStep [rid]) (some c0) = some c → (c.runId = rid ∨ c.runId = qmark) := by
+          intro fs
+          induction fs with
+          | nil => intro c _ c0 h0 h; simp only [List.foldl_nil, Option.some.injEq] at h; subst h; exact h0
+          | cons y fs ih =>
+            intro c hown c0 h0 h
+            simp only [List.foldl_cons] at h
+            have hnone : ∀ l : Cp, l.foldl (fetchStep [rid]) none = none := by
+              intro l; induction l with
+              | nil => rfl
+              | cons _ _ ihl => simpa [fetchStep] using ihl
+            cases hstep : fetchStep [rid] (some c0) y with
+            | none => rw [hstep, hnone] at h; exact absurd h (by simp)
+            | some c1 =>
+              rw [hstep] at h
+              refine ih c (fun e he => hown e (List.mem_cons_of_mem _ he)) c1 ?_ h
+              unfold fetchStep at hstep
+              by_cases hm : matchId [rid] y.rid = true
+              · simp only [hm, if_true] at hstep
+                cases hk : y.kind with
+                | runid =>
+                  simp only [hk, Option.some.injEq] at hstep
+                  subst hstep
+                  left; simp only
+                  rw [hown y (List.mem_cons_self ..) hk]
+                  exact (matchId_one rid y.rid).mp hm
+                | offset =>
+                  simp only [hk] at hstep
+                  cases hv : Resp.parseInt64 y.val with
+                  | none => simp [hv] at hstep
+                  | some v => simp only [hv, Option.map_some, Option.some.injEq] at hstep; subst hstep; exact h0
+                | mtime =>
+                  simp only [hk] at hstep
+                  cases hv : Resp.parseInt64 y.val with
+                  | none => simp [hv] at hstep
+                  | some v => simp only [hv, Option.map_some, Option.some.injEq] at hstep; subst hstep; exact h0
+                | version => simp only [hk, Option.some.injEq] at hstep; subst hstep; exact h0
+                | other => simp only [hk, Option.some.injEq] at hstep; subst hstep; exact h0
+              · simp only [hm] at hstep
+                simp only [Bool.false_eq_true, if_false, Option.some.injEq] at hstep
+                subst hstep; exact h0
+        have := h2 (t.cps p.1 cpn) p.2 hown {} (Or.inr rfl) hfetch
+        rcases this with h | h
+        · rw [h]; exact hrid
+        · rw [h]; exact hq.symm
+    · left; exact hname
+
+theorem mem_take {α : Type} {l : List α} {k : Nat} {a : α} (h : a ∈ l.take k) : a ∈ l :=
+  List.mem_of_mem_take h
+
+/-- gc keeps the invariant at every request prefix -/
+theorem gcLoop_prefix {id1 id2 A n r : Bytes} {d : Nat} {X : Int} (hne : id1 ≠ id2) (h10 : id1 ≠ [])
+    (hA : A = id1 ∨ A = id2) (hq : A ≠ qmark) (live : List Bytes) (h1 : id1 ∈ live) (h2 : id2 ∈ live)
+    (before : Int) :
+    ∀ (pairs : List (Bytes × Bytes)) (orders : List (List Nat)) (t : Target),
+      Inv id1 id2 A t n r d X → RunidOwn t n → ∀ k,
+      Inv id1 id2 A (applyAll t ((gcLoop live before t pairs orders).take k)) n r d X := by
+  intro pairs
+  induction pairs with
+  | nil => intro orders t hi _ k; simpa [gcLoop, applyAll] using hi
+  | cons pr rest ih =>
+    intro orders t hi hown k
+    obtain ⟨rid, cpn⟩ := pr
+    simp only [gcLoop]
+    generalize hrs : (delStale t cpn rid before (live.contains rid) (orders.headD [])).2.2 ++
+      (if ¬ (live.contains rid = true) ∧
+          (delStale t cpn rid before (live.contains rid) (orders.headD [])).1 =
+          (delStale t cpn rid before (live.contains rid) (orders.headD [])).2.1
+        then [Req.hdelHash rid] else []) = rs
+    have hAlive : A ∈ live := by rcases hA with h | h <;> rw [h] <;> assumption
+    have hsafe : ∀ q ∈ rs, SafeReq id1 id2 A n r d q := by
+      intro q hq'
+      rw [← hrs] at hq'
+      rcases List.mem_append.mp hq' with hq' | hq'
+      · exact delStale_safe hA hq hi hown cpn rid before _ _
+          (fun h => by rw [h]; exact List.contains_iff_mem.mpr hAlive) q hq'
+      · split at hq'
+        · rename_i hc
+          have : q = Req.hdelHash rid := by simpa using hq'
+          subst this
+          have hnl : rid ∉ live := fun h => hc.1 (List.contains_iff_mem.mpr h)
+          exact ⟨fun h => hnl (h ▸ h1), Or.inl (fun h => hnl (h ▸ h2))⟩
+        · simp at hq'
+    rw [List.take_append, applyAll_append]
+    by_cases hk : k ≤ rs.length
+    · have : k - rs.length = 0 := by omega
+      rw [this, List.take_zero]
+      show Inv id1 id2 A (applyAll t (rs.take k)) n r d X
+      exact inv_applyAll hne h10 hA _ hi (fun q hq' => hsafe q (mem_take hq'))
+    · have : rs.take k = rs := List.take_of_length_le (by omega)
+      rw [this]
+      exact ih _ _ (inv_applyAll hne h10 hA _ hi hsafe) (own_applyAll _ hown hsafe) _
+
+/-- what the scan's `newest`/`newestDb` are: the largest offset read and a database reading it -/
+structure ScanMax (t : Target) (name rid : Bytes) (visited : List Nat) (s : StaleScan) : Prop where
+  floor : -2 ≤ s.newest
+  ge : ∀ db ∈ visited, ∀ c, fetch [rid] (t.cps db name) = some c → c.offset ≤ s.newest
+  attained : -2 < s.newest → s.newestDb ∈ visited ∧
+    ∃ c, fetch [rid] (t.cps s.newestDb name) = some c ∧ c.offset = s.newest
+
+theorem staleScan_max_aux (t : Target) (name rid : Bytes) (order : List Nat) :
+    ∀ (visited : List Nat) (s0 s : StaleScan), ScanMax t name rid visited s0 →
+      order.foldl (staleScanStep t name rid) (some s0) = some s →
+      ScanMax t name rid (visited ++ order) s := by
+  induction order with
+  | nil =>
+    intro v s0 s h0 h
+    simp only [List.foldl_nil, Option.some.injEq] at h; subst h; simpa using h0
+  | cons db rest ih =>
+    intro v s0 s h0 h
+    simp only [List.foldl_cons] at h
+    cases hf : fetch [rid] (t.cps db name) with
+    | none =>
+      have hnone : ∀ l : List Nat, l.foldl (staleScanStep t name rid) none = none := by
+        intro l; induction l with
+        | nil => rfl
+        | cons _ _ ihl => simpa [staleScanStep] using ihl
+      simp only [staleScanStep, hf] at h
+      rw [hnone] at h; exact absurd h (by simp)
+    | some cpi =>
+      rw [staleScanStep_some t name rid s0 db cpi hf] at h
+      have := ih (v ++ [db]) _ s ?_ h
+      · simpa using this
+      · obtain ⟨e1, e2, _⟩ := scanNext_fields s0 db cpi
+        have hfl := h0.floor
+        refine ⟨?_, ?_, ?_⟩
+        · rw [e1]; split <;> omega
+        · intro db' hdb' c hc
+          rw [e1]
+          rcases List.mem_append.mp hdb' with hdb' | hdb'
+          · have := h0.ge db' hdb' c hc
+            split <;> omega
+          · have : db' = db := by simpa using hdb'
+            subst this
+            rw [hf] at hc; have := Option.some.inj hc; subst this
+            split <;> omega
+        · intro hgt
+          rw [e1] at hgt; rw [e1, e2]
+          split
+          · exact ⟨by simp, cpi, hf, rfl⟩
+          · rename_i hng
+            simp only [hng, if_false] at hgt
+            obtain ⟨hm, c, hc, hco⟩ := h0.attained hgt
+            exact ⟨List.mem_append_left _ hm, c, hc, hco⟩
+
+theorem staleScan_max (t : Target) (name rid : Bytes) (order : List Nat) (s : StaleScan)
+    (h : staleScan t name rid order = some s) : ScanMax t name rid order s := by
+  have h0 : ScanMax t name rid [] {} := ⟨by simp, by simp, by simp⟩
+  simpa using staleScan_max_aux t name rid order [] {} s h0 h
 
 end GunYu.Checkpoint
